@@ -54,4 +54,4 @@ with open(os.path.join(ROOT, "REGRESSION.md"), "w") as f:
         f.write("| %s | %s | %s |\n" % r)
     nd = [r for r in rows if "NOT detected" in r[1]]
     f.write("\n%d changes, %d detected by every listed check, %d with a listed check that no longer detects them, %d whose patch no longer applies.\n" % (
-        len(rows), len([r for r in rows if "detected" in r[1] and "NOT" not in r[1]]), len(nd), len([r for r in rows if "no longer applies" in r[1]])))
+        len(rows), len([r for r in rows if "detected" in r[1] and "NOT" not in r[1]]), len(nd), len([r for r in rows if r[1].startswith("patch no longer applies")])))
